@@ -16,7 +16,7 @@ pub const VALUE_CLASSES: [&str; 10] = [
 const F32: bool = std::mem::size_of::<V>() == 4;
 
 fn scale_pool(r: &mut Rng) -> f64 {
-	let pool: &[f64] = if F32 { &[1e-3, 1.0, 1.0, 100.0, 1e3] } else { &[1e-6, 1e-3, 1.0, 1.0, 100.0, 1e3, 1e6] };
+	let pool: &[f64] = if F32 { &[1e-3, 1.0, 1.0, 100.0, 1e3, 1e-12, 1e9] } else { &[1e-6, 1e-3, 1.0, 1.0, 100.0, 1e3, 1e6, 1e-18, 1e-40, 1e15] };
 	*r.pick(pool)
 }
 
@@ -101,8 +101,13 @@ pub fn values(class: usize, seed: u64, len: usize, n_hint: usize) -> Vec<f64> {
 			let (den, kmax) = if F32 { (4.0, 512i64) } else { (256.0, 1 << 20) };
 			let walk = r.chance(0.5);
 			let mut k = r.range(-kmax, kmax);
+			let mut hold = 0usize;
 			for _ in 0..len {
-				if walk {
+				if hold > 0 {
+					hold -= 1;
+				} else if r.chance(0.04) {
+					hold = 1 + r.below(2 * n as u64 + 2) as usize;
+				} else if walk {
 					k = (k + r.range(-kmax / 64, kmax / 64)).clamp(-kmax, kmax);
 				} else {
 					k = r.range(-kmax, kmax);
